@@ -281,7 +281,11 @@ class Contract:
     loops = ()
     options = {}
     trusted = False        # True: assumed contract on a dependency (never on a /repo function)
+    yields = False         # the call ends the caller's atomic segment
     doc = ''
+
+    def on_yield(self, it, label):
+        """interference at a yield while verifying this function: havoc shared state under the rely"""
 
     # -------- to be overridden --------------------------------------------------------
     def setup(self, it):
@@ -304,6 +308,11 @@ class Contract:
 
     def call_effects(self, it, pre, post, a, res):
         pass
+
+    def result_term(self, it, pre, a):
+        """optional: the result as an explicit function of the pre-state (pure functional contracts);
+        used at call sites instead of a fresh symbol + ensures"""
+        return None
 
     # -------- machinery ---------------------------------------------------------------
     @property
@@ -348,6 +357,9 @@ class Contract:
         for n, f in self.requires(it, pre, a):
             st.oblige(f'{caller}#call:{self.name}.pre[{n}]', f, callee=self.name)
             st.assume(as_z3(f))
+        if self.yields:
+            it.do_yield(self.name)
+            pre = st.snapshot()
         cases = self.raises(it, pre, a)
         guards = []
         det = [c.when for c in cases if not c.may and c.when is not None]
@@ -376,12 +388,17 @@ class Contract:
             raise PyRaise(exc, f'{self.name}:{case.name}')
         for ref, field in mods:
             havoc_location(st, ref, field, f'{self.name}.{field}')
-        res = self.make_result(it, pre, a)
-        post = st.snapshot()
-        for _n, f in self.ensures(it, pre, post, a, res):
-            st.assume(as_z3(f))
-        if isinstance(res, SymV):
-            res = lower(res.t, st)
+        rt = self.result_term(it, pre, a) if not mods else None
+        if rt is not None:
+            res = wrap_bool(rt) if z3.is_bool(rt) else lower(rt, st)
+            post = pre
+        else:
+            res = self.make_result(it, pre, a)
+            post = st.snapshot()
+            for _n, f in self.ensures(it, pre, post, a, res):
+                st.assume(as_z3(f))
+            if isinstance(res, SymV):
+                res = lower(res.t, st)
         st.emit('call', fn=self.name, a=a, res=res, exc=None, pre=pre, post=post, case=None)
         self.call_effects(it, pre, post, a, res)
         return res
@@ -457,6 +474,7 @@ def verify_function(repo, registry, models_factory, c, base_axioms, options=None
         models = models_factory()
         it = Interp(repo, registry, st, models, verifying=fi.key, options=opts)
         models.attach(it)
+        it.yield_hook = c.on_yield
         self_val, ca = c.setup(it)
         a = c.bind(it, fi, self_val, ca)
         pre = st.snapshot()
